@@ -12,6 +12,7 @@ refused.
 from __future__ import annotations
 
 import ast
+import itertools
 
 from ..core import Ctx, Rule
 from ..dataflow import derived_names
@@ -561,6 +562,73 @@ def w2_comparisons_and_positions(ctx: Ctx):
               'a nested pattern extends the position of its parent', 'changed')
 
 
+def w4_ranges(ctx: Ctx):
+    """`range` is lowered to a tensor: an element count and a formula for element i.  The three lowerings are built, from
+    their source, over symbolic operands, and the resulting FPCore terms are evaluated with the annotation semantics of
+    the standard (`:precision integer` rounds every operation to the nearest integer, ties to even; `:precision real`
+    rounds nothing) for every start, stop in [-7, 7] and step in {-3..-1, 1..3} with a non-empty or exactly empty
+    range: the tensor must list exactly the integers Python's `range` does."""
+    import math as _math
+    from fractions import Fraction
+
+    from ..minipy import Interp, Obj
+    meths = {n: f for n, (_, _, f) in ctx.repo.methods(BACK, '_FPCoreCompileInstance', inherited=False).items()}
+
+    def node(kind):
+        return lambda *a: (kind,) + tuple(a)
+    overrides = {f'fpc.{k}': node(k) for k in ('Tensor', 'Ctx', 'Sub', 'Add', 'Mul', 'Div', 'Ceil', 'Floor', 'Var', 'Integer', 'Neg')}
+    overrides.update({'self._visit_expr': lambda e, c: ('Operand', e), 'self.gensym.fresh': lambda p: 'i', 'str': str})
+
+    def rint(q: Fraction) -> Fraction:
+        f = _math.floor(q)
+        r = q - f
+        return Fraction(f + (1 if r > Fraction(1, 2) or (r == Fraction(1, 2) and f % 2) else 0))
+
+    def ev(t, env, prec):
+        k = t[0]
+        if k == 'Operand':
+            return Fraction(env[t[1]])
+        if k == 'Var':
+            return Fraction(env[t[1]])
+        if k == 'Integer':
+            return Fraction(t[1])
+        if k == 'Ctx':
+            p = t[1].get('precision', prec)
+            return ev(t[2], env, p)
+        a = [ev(x, env, prec) for x in t[1:]]
+        v = {'Sub': lambda: a[0] - a[1], 'Add': lambda: a[0] + a[1], 'Mul': lambda: a[0] * a[1], 'Div': lambda: a[0] / a[1], 'Neg': lambda: -a[0],
+             'Ceil': lambda: Fraction(_math.ceil(a[0])), 'Floor': lambda: Fraction(_math.floor(a[0]))}[k]()
+        if prec == 'integer':
+            return rint(v)
+        if prec == 'real':
+            return v
+        raise ShapeError(f'range lowering evaluated under precision {prec}')
+    n = 0
+    for name, params in (('_visit_range1', ('stop',)), ('_visit_range2', ('start', 'stop')), ('_visit_range3', ('start', 'stop', 'step'))):
+        fn = meths.get(name)
+        if fn is None:
+            raise ShapeError(f'{name} not found')
+        term = Interp({}, meths, overrides=overrides).call_function(fn, list(params) + [None], bound_self=True)
+        if not (isinstance(term, tuple) and term[0] == 'Tensor' and len(term[1]) == 1):
+            raise ShapeError(f'{name}: not a one-dimensional tensor')
+        (ivar, size_t), elt_t = term[1][0], term[2]
+        bad = None
+        for start, stop, step in itertools.product(range(-7, 8), range(-7, 8), (-3, -2, -1, 1, 2, 3)):
+            if ('start' not in params and start != 0) or ('step' not in params and step != 1) or (stop - start) * step < 0:
+                continue
+            env = {'start': start, 'stop': stop, 'step': step}
+            size = ev(size_t, env, 'integer')
+            got = [ev(elt_t, {**env, ivar: i}, 'integer') for i in range(int(size))] if size.denominator == 1 and size >= 0 else None
+            n += 1
+            if got != [Fraction(v) for v in range(start, stop, step)] and bad is None:
+                shown = {1: f'range({stop})', 2: f'range({start}, {stop})', 3: f'range({start}, {stop}, {step})'}[len(params)]
+                bad = f'{shown} is {list(range(start, stop, step))}; the tensor lists {[int(v) if v.denominator == 1 else str(v) for v in got] if got is not None else f"{size} elements"}'
+        ctx.check(bad is None, BACK, fn, f'_FPCoreCompileInstance.{name}', f'{name[7:]}: the tensor lists the integers of the range',
+                  (bad or '') + ' (under `:precision integer` a quotient is rounded to an integer before `ceil` sees it)')
+    if n < 400:
+        raise ShapeError(f'only {n} ranges evaluated')
+
+
 def w3_nested_comprehensions(ctx: Ctx):
     """`[e for x in xs for y in ys for z in zs]` lists its elements outermost-first.  The writer lowers it to one flat
     tensor over k in [0, |xs| * |ys| * |zs|) and recomputes the three indices from k.  `_visit_list_comp` is evaluated,
@@ -724,6 +792,7 @@ def r3_loop_condition(ctx: Ctx):
 
 
 RULES = [
+    Rule('C12.W4', 'writer: the tensor a range lowers to lists the integers of the range (count and element formula, evaluated under the annotation semantics)', w4_ranges, 3, 'T'),
     Rule('C12.W3', 'writer: a comprehension over several iterables lists its elements outermost-first, reads its own iteration variable and binds the targets', w3_nested_comprehensions, 4, 'T,F'),
     Rule('C12.R4', 'reader: annotation values written by the compiler (plain strings) are read as they are', r4_property_values, 1, 'F'),
     Rule('C12.R3', 'reader: the statements a `while` condition needs run before every test, not once ahead of the loop', r3_loop_condition, 6, 'F,P'),
@@ -740,6 +809,10 @@ RULES = [
 from ..selftest import Mutant  # noqa: E402
 
 MUTANTS = [
+    Mutant('range-count-quotient-rounded-to-an-integer', BACK, "                fpc.Ceil(fpc.Ctx({ 'precision': 'real' }, fpc.Div(fpc.Sub(stop_expr, start_expr), step_expr)))))],",
+           "                fpc.Ceil(fpc.Div(fpc.Sub(stop_expr, start_expr), step_expr))))],", 'C12.W4', 'finding F82 before its repair: range(0, 5, 2) has two elements'),
+    Mutant('range-count-floor', BACK, "                fpc.Ceil(fpc.Ctx({ 'precision': 'real' }, fpc.Div(", "                fpc.Floor(fpc.Ctx({ 'precision': 'real' }, fpc.Div(", 'C12.W4'),
+    Mutant('range2-elements-from-zero', BACK, "            fpc.Ctx({ 'precision': 'integer' }, fpc.Add(fpc.Var(tuple_id), start_expr))\n", "            fpc.Var(tuple_id)\n", 'C12.W4'),
     Mutant('overflow-mode-of-a-float-format-dropped', FCTX, "                if ctx.overflow is not OV.OVERFLOW:", "                if False:", 'C12.T2',
            'finding F81 before its repair: FP16 with overflow=SATURATE compiled as binary16'),
     Mutant('random-bits-dropped', FCTX, "        if ctx.is_stochastic():\n            # FPCore has no property for random bits", "        if False:\n            # FPCore has no property for random bits", 'C12.T2'),
